@@ -2,8 +2,9 @@
 
 CelloGen/Reg.lean gets: the prime table and its declared length, the load factor as a rational, the `size+1` bump of
 GC_Ideal_Size, the shift of GC_Hash, the tie rule of GC_Set_Ptr (`j >= p` / `j > p`), the collection threshold formula
-(`gc->mitems = …`, must be the same text in GC_Sweep and GC_Rem), GC_Probe translated expression by expression, and the
-fields of struct GCEntry.  Anything that no longer has the expected shape raises ExtractError (a broken tie)."""
+(`gc->mitems = …`, must be the same text in GC_Sweep and GC_Rem), GC_Probe translated expression by expression, the
+fields of struct GCEntry, and three flags read from the statement shapes: the NULL test at the head of GC_Rem_Ptr (fix
+d3e4e44) and the GC_Unmark calls in the prologue of GC_Mark and in GC_Del (fix d8f0c4f).  Anything that no longer has the expected shape raises ExtractError (a broken tie)."""
 import re
 from ctext import *
 from gen import HEADER, lean_str, lean_list
@@ -83,18 +84,46 @@ def gen_reg(repo):
         mm = re.compile(pat).search(gb, pos)
         if not mm: raise ExtractError(f'GC_Set: expected /{pat}/ in order')
         pos = mm.end()
-    # --- GC_Rem_Ptr: the strike-off scan compares raw words (a struck-off slot holds NULL) and there is no NULL test before it;
-    #     GC_Sweep's last loop clears the slot before it finalises and skips NULL words (the model and the theorems
-    #     C17_null_del_in_sweep_refuted / NoNull depend on exactly this)
+    # --- GC_Rem_Ptr: the entry test (`nslots is 0`, with or without `or ptr is NULL`: flag gcRemNullGuard — fix d3e4e44), then the
+    #     strike-off scan comparing raw words (a struck-off slot holds NULL); GC_Sweep's last loop clears the slot before it
+    #     finalises and skips NULL words (the model, C17_progress_all_destructors and the OLD-variant refutation
+    #     C17_null_del_in_sweep_old_refuted depend on exactly this)
     rb = func_body(src, 'GC_Rem_Ptr')
-    pos = 0
-    for pat in [r'^\s*if\s*\(\s*gc->nslots\s+is\s+0\s*\)\s*\{\s*return\s*;\s*\}',
-                r'for\s*\(\s*size_t\s+i\s*=\s*0\s*;\s*i\s*<\s*gc->freenum\s*;\s*i\+\+\s*\)\s*\{\s*if\s*\(\s*gc->freelist\[i\]\s+is\s+ptr\s*\)\s*\{',
+    m = re.match(r'\s*if\s*\(\s*gc->nslots\s+is\s+0\s*(or\s+ptr\s+is\s+NULL\s*)?\)\s*\{\s*return\s*;\s*\}', rb)
+    if not m: raise ExtractError('GC_Rem_Ptr: expected to start with `if (gc->nslots is 0 [or ptr is NULL]) { return; }`')
+    rem_null_guard = m.group(1) is not None
+    pos = m.end()
+    if re.search(r'\bNULL\b', rb[pos:rb.find('gc->freelist[i] = NULL')]):
+        raise ExtractError('GC_Rem_Ptr: another NULL test before the strike-off scan (the model has the entry test only)')
+    for pat in [r'for\s*\(\s*size_t\s+i\s*=\s*0\s*;\s*i\s*<\s*gc->freenum\s*;\s*i\+\+\s*\)\s*\{\s*if\s*\(\s*gc->freelist\[i\]\s+is\s+ptr\s*\)\s*\{',
                 r'gc->freelist\[i\]\s*=\s*NULL\s*;', r'dealloc\(destruct\(ptr\)\)\s*;\s*return\s*;',
                 r'uint64_t\s+i\s*=\s*GC_Hash\(ptr\)\s*%\s*gc->nslots\s*;', r'gc->nitems--\s*;', r'dealloc\(destruct\(freeitem\)\)\s*;']:
         mm = re.compile(pat).search(rb, pos)
         if not mm: raise ExtractError(f'GC_Rem_Ptr: expected /{pat}/ in order')
         pos = mm.end()
+    # --- GC_Unmark / the prologue of GC_Mark / GC_Del (fix d8f0c4f): flags gcMarkUnmarksFirst, gcDelUnmarksFirst
+    has_unmark = re.search(r'\bstatic\s+void\s+GC_Unmark\s*\(', src) is not None
+    if has_unmark:
+        ub = func_body(src, 'GC_Unmark')
+        if not re.fullmatch(r'\s*for\s*\(\s*size_t\s+i\s*=\s*0\s*;\s*i\s*<\s*gc->nslots\s*;\s*i\+\+\s*\)\s*\{\s*gc->entries\[i\]\.marked\s*=\s*false\s*;\s*\}\s*', ub):
+            raise ExtractError('GC_Unmark: expected `for (size_t i = 0; i < gc->nslots; i++) { gc->entries[i].marked = false; }`')
+    kb = func_body(src, 'GC_Mark')
+    m = re.match(r'\s*if\s*\(\s*gc\s+is\s+NULL\s+or\s+gc->nitems\s+is\s+0\s*\)\s*\{\s*return\s*;\s*\}\s*(GC_Unmark\(gc\)\s*;)?\s*(?:/\*.*?\*/\s*)?mark\(current\(Thread\)', kb, re.S)
+    if not m: raise ExtractError('GC_Mark: expected `if (gc is NULL or gc->nitems is 0) { return; } [GC_Unmark(gc);] mark(current(Thread), …`')
+    mark_unmarks = m.group(1) is not None
+    if len(re.findall(r'GC_Unmark\(', kb)) != (1 if mark_unmarks else 0): raise ExtractError('GC_Mark: GC_Unmark called somewhere else than in the prologue')
+    pos = m.end()
+    for pat in [r'if\s*\(\s*gc->entries\[i\]\.root\s*\)\s*\{\s*gc->entries\[i\]\.marked\s*=\s*true\s*;', r'mark_stack\(gc\)\s*;']:
+        mm = re.compile(pat).search(kb, pos)
+        if not mm: raise ExtractError(f'GC_Mark: expected /{pat}/ in order')
+        pos = mm.end()
+    eb = func_body(src, 'GC_Del')
+    m = re.match(r'\s*struct\s+GC\s*\*\s*gc\s*=\s*self\s*;\s*(GC_Unmark\(gc\)\s*;)?\s*GC_Sweep\(gc\)\s*;', eb)
+    if not m: raise ExtractError('GC_Del: expected `struct GC* gc = self; [GC_Unmark(gc);] GC_Sweep(gc);`')
+    del_unmarks = m.group(1) is not None
+    if (mark_unmarks or del_unmarks) and not has_unmark: raise ExtractError('GC_Unmark is called but not defined as a static function of GC.c')
+    others = [f for f in ('GC_Sweep', 'GC_Set', 'GC_Rem', 'GC_Rem_Ptr', 'GC_Set_Ptr', 'GC_Rehash', 'GC_Mark_Item') if re.search(r'GC_Unmark\(', func_body(src, f))]
+    if others: raise ExtractError(f'GC_Unmark is also called from {others}: the model clears the mark bits in GC_Mark and GC_Del only')
     wb = func_body(src, 'GC_Sweep')
     pos = 0
     for pat in [r'gc->freelist\s*=\s*realloc\(gc->freelist,\s*sizeof\(var\)\s*\*\s*gc->nitems\)\s*;', r'gc->freenum\s*=\s*0\s*;',
@@ -144,6 +173,15 @@ def gcTieGe : Bool := {'true' if tie_ge else 'false'}
 
 /-- `gc->mitems = {forms[0]};` (GC_Sweep and GC_Rem) -/
 def gcMitems (nitems : Nat) : Nat := {mit}
+
+/-- GC_Rem_Ptr starts with `if (gc->nslots is 0 or ptr is NULL) {{ return; }}` (true) or tests `nslots` only (false) -/
+def gcRemNullGuard : Bool := {'true' if rem_null_guard else 'false'}
+
+/-- GC_Mark calls GC_Unmark (every entry's mark bit cleared) right after its `nitems is 0` test, before anything is marked -/
+def gcMarkUnmarksFirst : Bool := {'true' if mark_unmarks else 'false'}
+
+/-- GC_Del calls GC_Unmark before its GC_Sweep -/
+def gcDelUnmarksFirst : Bool := {'true' if del_unmarks else 'false'}
 
 /-- fields of `struct GCEntry` -/
 def gcEntryFields : List String := {lean_list([lean_str(f) for f in fields])}
